@@ -209,7 +209,8 @@ def classify_ls(res, case):
 
 from vf.props.c03 import shape_list as _shape  # noqa: E402
 PLAN = e1prop.Plan('C13', LS_ROWS, cfgs=('v6', 'v6', 'v7', 'v5', 'v6-nosec', 'v7-lpae'), classify=classify_ls,
-                   case_kw=lambda rng, row: {'mpu': False, 'mmu': False, 'e': rng.getrandbits(1)}, tweak_case=aim_unaligned, tweak_word=_shape,
+                   # (MPU on with random regions in a quarter of the cases: fetches and accesses that abort with CPSR.E = 1 must report the interrupted E)
+                   case_kw=lambda rng, row: {'mpu': (None if rng.random() < 0.25 else False), 'mmu': False, 'e': rng.getrandbits(1)}, tweak_case=aim_unaligned, tweak_word=_shape,
                    hooked=(False, False, True))
 
 
